@@ -179,6 +179,7 @@ extern "C" void proof_clear() {
 extern "C" void proof_copy() {
   TL l; nd_obj(l);
   VASSUME(TL_wf(&l));
+  VREACH("arbitrary well-formed pool");
   if (l._count > 0 && l._count < CAP) VREACH("pool with holes");
   TL c = l;
   TL a; a = l;
